@@ -8,7 +8,7 @@
               W<nbytes>      the same with SFC_SET_UPDATE_HEADER_AUTO on
               u              SFC_UPDATE_HEADER_NOW
               c              sf_close
-              d              report the store: hdr=<hex> dlen=<n> [tail=<hex>]
+              d              report the store: hdr=<hex> dlen=<n>   (dlen counts every byte after the header)
                                     -> the `d` reports joined by " | "   (`bad-config` when the container refuses it)
     parse <hex of a whole file>     -> ok ch=<n> sr=<n> frames=<n> fmt=<8 hex> | err | unmodelled
     quant <sr>                      -> the rate a reader reports for a file written at <sr>
@@ -16,6 +16,7 @@
 import SfModel.Basic
 import SfModel.Small2
 import SfModel.Nist
+import SfModel.Voc
 import Driver.Util
 import Driver.Small2
 open Sf (hexBytes hexFixed parseHexBytes parseHexNat Byte)
@@ -26,39 +27,43 @@ namespace Driver.Small3
 
 /-- a container whose store is `hdr ++ data ++ tail` -/
 structure Container where
-  /-- configuration -> (session machine, the state sf_open leaves for a caller's stale frames value, tail bytes of a state) -/
-  fmtOf : List String → Option (Fmt × (Nat → St) × (St → List Byte))
+  /-- configuration -> (session machine, the state sf_open leaves for a caller's stale frames value, the close function) -/
+  fmtOf : List String → Option (Fmt × (Nat → St) × (St → St))
   parse : List Byte → ParseRes
   quant : Nat → Nat := id
 
-def report (tailOf : St → List Byte) (s : St) : String :=
-  let t := tailOf s
-  s!"hdr={hexBytes s.hdr} dlen={s.data.length - t.length}" ++ (if t.isEmpty then "" else s!" tail={hexBytes t}")
+def report (s : St) : String := s!"hdr={hexBytes s.hdr} dlen={s.data.length}"
 
-def runOps (F : Fmt) (tailOf : St → List Byte) (ops : List String) (s : St) (acc : List String) : List String :=
+def runOps (F : Fmt) (closeF : St → St) (ops : List String) (s : St) (acc : List String) : List String :=
   match ops with
   | [] => acc.reverse
   | op :: rest =>
-    if op == "u" then runOps F tailOf rest (update F s) acc
-    else if op == "c" then runOps F tailOf rest (close F s) acc
-    else if op == "d" then runOps F tailOf rest s (report tailOf s :: acc)
+    if op == "u" then runOps F closeF rest (update F s) acc
+    else if op == "c" then runOps F closeF rest (closeF s) acc
+    else if op == "d" then runOps F closeF rest s (report s :: acc)
     else if op.startsWith "w" || op.startsWith "W" then
       let n := ((op.drop 1).toString.toNat?).getD 0
-      runOps F tailOf rest (write F s (List.replicate n 0) (op.startsWith "W")) acc
-    else runOps F tailOf rest s acc
-
-def noTail : St → List Byte := fun _ => []
+      runOps F closeF rest (write F s (List.replicate n 0) (op.startsWith "W")) acc
+    else runOps F closeF rest s acc
 
 def nist : Container :=
   { fmtOf := fun toks =>
       let c : Sf.Nist.Cfg := { codec := hexKey toks "codec", endian := endianOf toks, ch := kvNat toks "ch" 1, sr := kvNat toks "sr" 1 }
-      if decide c.wf then some (Sf.Nist.fmt c, Sf.Nist.openW c, noTail) else none,
+      if decide c.wf then some (Sf.Nist.fmt c, Sf.Nist.openW c, close (Sf.Nist.fmt c)) else none,
     parse := Sf.Nist.parse,
     quant := Sf.Nist.quant }
+
+def voc : Container :=
+  { fmtOf := fun toks =>
+      let c : Sf.Voc.Cfg := { codec := hexKey toks "codec", ch := kvNat toks "ch" 1, sr := kvNat toks "sr" 1 }
+      if endianOf toks < 2 ∧ decide c.wf then some (Sf.Voc.fmt c, openW (Sf.Voc.fmt c), Sf.Voc.closeSt c) else none,
+    parse := Sf.Voc.parse,
+    quant := fun sr => Sf.Voc.quant { codec := 5, ch := 1, sr := sr } }   -- the 8-bit divisor; the 16-bit one is tied through the header bytes
 
 def containerOf (name : String) : Option Container :=
   match name with
   | "nist" => some nist
+  | "voc" => some voc
   | _ => none
 
 def answer (C : Container) (line : String) : String :=
@@ -67,9 +72,9 @@ def answer (C : Container) (line : String) : String :=
   | "session" :: rest =>
     match C.fmtOf rest with
     | none => "bad-config"
-    | some (F, openSt, tailOf) =>
+    | some (F, openSt, closeF) =>
       let ops := ((kvGet rest "ops").getD "").splitOn ";"
-      " | ".intercalate (runOps F tailOf ops (openSt (kvNat rest "stale" 0)) [])
+      " | ".intercalate (runOps F closeF ops (openSt (kvNat rest "stale" 0)) [])
   | "parse" :: h :: _ => showRes (C.parse (if h == "-" then [] else parseHexBytes h))
   | "quant" :: n :: _ => toString (C.quant (n.toNat?.getD 0))
   | _ => "bad-request"
